@@ -100,7 +100,8 @@ def toFx (t : Martian.Tokenizer.Tok) : Option Martian.FormatExp.Tok :=
     else if n == "NULL" then some .kNull
     else if n == "SELF" then some .kSelf
     else if n == "DEFAULT" then some .kDefault
-    else if n == "INVALID" || n == "INCLUDE_DIRECTIVE" || n == "" then none
+    else if n == "INVALID" || n == "" then none
+    else if n == "INCLUDE_DIRECTIVE" then some (.reserved t.text)
     else if Martian.FormatExp.idTokens.contains n then some (.id t.text)
     else some (.reserved t.text)
 
